@@ -28,17 +28,8 @@ static QByteArray listingOf(const QString &dir)
     return i < 0 ? QByteArray() : w.mid(i + 4);
 }
 
-void runFs(const Scn &scn, Out &out)
+void fsOracle(Out &out)
 {
-    QStringList *obs = &out.obs;
-    QByteArray root, stream;
-    QStringList events;
-    foreach (const QString &t, scn.toks) {
-        QStringList p = t.split(':');
-        if (p[0] == "root") root = unhx(p[1]);
-        else { events << t; if (p[0] == "feed") stream.append(unhx(p[1])); }
-    }
-    urlOracle(stream, out);
     // file-system oracle: everything under the tree base, and the ancestors of the base
     QString base = QDir::cleanPath(QDir::currentPath() + "/fstree");
     QMimeDatabase db;
@@ -65,6 +56,21 @@ void runFs(const Scn &scn, Out &out)
             out.ora << QString("lst:%1:%2").arg(hx(d.toUtf8())).arg(hx(listings[d]));
         }
     }
+
+}
+
+void runFs(const Scn &scn, Out &out)
+{
+    QStringList *obs = &out.obs;
+    QByteArray root, stream;
+    QStringList events;
+    foreach (const QString &t, scn.toks) {
+        QStringList p = t.split(':');
+        if (p[0] == "root") root = unhx(p[1]);
+        else { events << t; if (p[0] == "feed") stream.append(unhx(p[1])); }
+    }
+    urlOracle(stream, out);
+    fsOracle(out);
 
     FilesystemHandler handler(QString::fromUtf8(root));
     QPointer<SimTcp> tcp = new SimTcp;
